@@ -137,8 +137,13 @@ func init() {
 			if b, ok := e.UseChecksum.(bool); ok {
 				ck = b01(b)
 			}
-			return fmt.Sprintf("OK port=%d hb=%d conn=%d send=%d recv=%d ck=%s rbuf=%d key=%s", e.Port, int64(e.HeartbeatInterval), int64(e.ConnectionTimeout),
-				int64(e.SendTimeout), int64(e.ReceiveTimeout), ck, e.ReceiveBufferBlockSize, hx(rscp.VerifKey(cfg.Key)))
+			// where connect() will dial: host part in hex, port in decimal
+			dial := cl.VerifDialAddress()
+			if i := strings.LastIndex(dial, ":"); i >= 0 {
+				dial = hx([]byte(dial[:i])) + ":" + dial[i+1:]
+			}
+			return fmt.Sprintf("OK port=%d hb=%d conn=%d send=%d recv=%d ck=%s rbuf=%d key=%s dial=%s", e.Port, int64(e.HeartbeatInterval), int64(e.ConnectionTimeout),
+				int64(e.SendTimeout), int64(e.ReceiveTimeout), ck, e.ReceiveBufferBlockSize, hx(rscp.VerifKey(cfg.Key)), dial)
 		},
 		pred: func(c, res string) string {
 			if strings.HasPrefix(res, "PANIC") || res == "HANG" {
@@ -163,6 +168,13 @@ func init() {
 			}
 			kv := _kv(res)
 			i64 := func(s string) int64 { v, _ := strconv.ParseInt(s, 10, 64); return v }
+			wantPort := f[5]
+			if wantPort == "0" {
+				wantPort = "5033"
+			}
+			if kv["dial"] != f[1]+":"+wantPort {
+				return "the client will not dial the configured address and the effective port (5033 when unset): " + kv["dial"]
+			}
 			for _, k := range []string{"conn", "send", "recv"} {
 				if i64(kv[k]) <= 0 {
 					return "effective " + k + " timeout is not positive: " + kv[k]
